@@ -189,6 +189,45 @@ func genC10(tier, out string, sum *Summary) {
 			relate(flat3, "(a "+o.text+" b) * c", mkBin("*", mkBin(o.ascii, ops[0], ops[1]), ops[2]))
 		}
 	}
+	// prefix operators against every postfix selector, around operands of every shape: "!" binds tighter than
+	// ".", ".*", "[?" and "[]" but looser than "[n]", "[a:b]" and "[*]"; the operand of a sign takes every selector
+	{
+		operands := []string{"a", "@", "$", "b", "`false`", "`[false, [1]]`", "(a)", "[a]", "{a: a}", "not_null(a)", "b[1]", "''"}
+		posts := []struct {
+			text   string
+			inside bool // inside the operand of "!"
+		}{{".a", false}, {".*", false}, {"[?@]", false}, {"[]", false}, {"[0]", true}, {"[0:1]", true}, {"[*]", true}, {"[-1]", true}, {".a.b", false}, {"[0].a", true}, {"[*].a", true}, {".[a]", false}, {".{k: a}", false}}
+		for _, x := range operands {
+			for _, ps := range posts {
+				sum.count("prefix-postfix")
+				flat := "!" + x + ps.text
+				var explicit string
+				if ps.inside {
+					// the first selector joins the operand; anything after a dot binds looser than "!" again
+					first, rest := ps.text, ""
+					if i := strings.Index(ps.text[1:], "."); i >= 0 && ps.text[0] == '[' {
+						first, rest = ps.text[:i+1], ps.text[i+1:]
+					}
+					explicit = "!(" + x + first + ")"
+					if first == "[*]" && rest != "" {
+						// a projection takes the selectors that follow it, whatever encloses it
+						explicit, rest = "!("+x+ps.text+")", ""
+					}
+					if rest != "" {
+						explicit = "(" + explicit + ")" + rest
+					}
+				} else {
+					explicit = "(!" + x + ")" + ps.text
+				}
+				relate(flat, explicit, nil)
+				for _, u := range []string{"- ", "+ "} {
+					relate(u+x+ps.text, u+"("+x+ps.text+")", nil)
+				}
+				// a second prefix operator changes nothing about the selector
+				relate("!!"+x+ps.text, strings.Replace(explicit, "!", "!!", 1), nil)
+			}
+		}
+	}
 	// selectors and projections bind tighter than every binary operator
 	for _, o := range binSpellings {
 		if o.text != o.ascii {
